@@ -541,8 +541,11 @@ pub fn generate(rng: &mut Rng) -> Generated {
         let acc = rng.chance(1, 2);
         files.push((format!("lib/{}.ak", d.name), d.source(acc)));
     }
+    // One project in eight has a test module with several dozen tests (anything that switches
+    // strategy above some number of tests needs that many).
+    let crowded = rng.chance(1, 8);
     for t in 0..n_tests {
-        let n = 3 + rng.usize_below(5);
+        let n = if crowded && t == 0 { 36 + rng.usize_below(30) } else { 3 + rng.usize_below(5) };
         let name = format!("{}_tests{}", pool[n_data + t], rng.below(100));
         files.push((format!("lib/{name}.ak"), test_module(rng, t, &data, n)));
     }
